@@ -1,5 +1,6 @@
 import CuqiVerif.Model.C18_interp
 import CuqiVerif.Props.C18
+import CuqiVerif.Proofs.C18_interp
 import Mathlib.Tactic.Ring
 import Mathlib.Tactic.Linarith
 import Mathlib.Tactic.NormNum
@@ -95,6 +96,97 @@ theorem interp1dQuadratic_spec_partial (solveLin : List (List ℚ) → List ℚ 
               · intro p hp
                 simp only [List.any_eq_true, decide_eq_true_eq, not_exists, not_and, not_or, not_lt] at hb
                 exact hb p hp
+
+
+/-! ## nodal reproduction and linearity in the data (second pass) -/
+
+open Finset in
+/-- **quadSpline_colloc_row.**  Row `i` of the collocation system is the spline itself: for a
+    coefficient list `c` of length `n`, `Σ_j B_j(ξ)·c_j = S_c(ξ)` at every point `ξ` (the `B_j` being the
+    splines of the unit coefficient vectors, exactly as `quadColloc` tabulates them). -/
+theorem quadSpline_colloc_row (t c : List ℚ) (n : ℕ) (hc : c.length = n) (xi : ℚ) :
+    rowDot ((List.range n).map fun j => quadSplineAt t (unitVec n j) xi) c = quadSplineAt t c xi := by
+  rw [rowDot_range n _ c hc]
+  unfold quadSplineAt
+  simp only [unitVec_length, hc, deBoor2_weights]
+  simp only [add_mul, mul_assoc, Finset.sum_add_distrib, ← Finset.mul_sum]
+  rw [sum_unit_mul n _ c hc, sum_unit_mul n _ c hc, sum_unit_mul n _ c hc]
+
+/-- **quadSpline_nodal_reproduction.**  A coefficient list that passes the collocation certificate
+    `B c = y` gives a spline that takes the value `y_i` at node `x_i`, for every node. -/
+theorem quadSpline_nodal_reproduction (t x c y : List ℚ) (hc : c.length = x.length)
+    (h : (quadColloc t x).map (fun row => rowDot row c) = y) :
+    x.map (fun xi => quadSplineAt t c xi) = y := by
+  rw [← h]
+  unfold quadColloc
+  simp only [List.map_map]
+  apply List.map_congr_left
+  intro xi _
+  exact (quadSpline_colloc_row t c x.length hc xi).symm
+
+/-- **interp1dQuadratic_spec.**  The full statement left open in `interp1dQuadratic_spec_partial`:
+    whenever the modelled `interp1d(gs, u, 'quadratic')(go)` returns `v`, there is ONE quadratic spline
+    `S` (knots `quadKnots x`, coefficients `c`) on the sorted nodes `x` with values `y` such that
+    `S(x_i) = y_i` at **every node** and `v_a = S(go_a)` for every observation point, in the order
+    given; at least three distinct nodes; every observation point within the node range. -/
+theorem interp1dQuadratic_spec (solveLin : List (List ℚ) → List ℚ → Option (List ℚ))
+    (gs u go v : List ℚ) (h : interp1dQuadratic solveLin gs u go = .ok v) :
+    ∃ c : List ℚ,
+      let pairs := sortByFst (gs.zip u)
+      let x := pairs.map (·.1)
+      let y := pairs.map (·.2)
+      3 ≤ x.length ∧ strictlyIncreasing x = true ∧ c.length = x.length ∧
+      x.map (fun xi => quadSplineAt (quadKnots x) c xi) = y ∧
+      (∀ p ∈ go, x.headD 0 ≤ p ∧ p ≤ x.getLastD 0) ∧
+      v = go.map (fun p => quadSplineAt (quadKnots x) c p) ∧ v.length = go.length := by
+  obtain ⟨c, h3, hinc, hlen, hcert, hb, hv, hvl⟩ := interp1dQuadratic_spec_partial solveLin gs u go v h
+  exact ⟨c, h3, hinc, hlen, quadSpline_nodal_reproduction _ _ c _ hlen hcert, hb, hv, hvl⟩
+
+/-- **quadSplineAt_linear.**  With knots and length fixed the spline value is linear in the coefficient
+    list: `S_{a·c+d}(p) = a·S_c(p) + S_d(p)` (entrywise combination of lists of equal length). -/
+theorem quadSplineAt_linear (t c d : List ℚ) (hcd : c.length = d.length) (a p : ℚ) :
+    quadSplineAt t (List.zipWith (fun x y => a * x + y) c d) p = a * quadSplineAt t c p + quadSplineAt t d p := by
+  unfold quadSplineAt
+  have hl : (List.zipWith (fun x y => a * x + y) c d).length = c.length := by simp [hcd]
+  rw [hl, ← hcd, ← deBoor2_linear]
+  congr 1
+  funext i
+  by_cases hi : i < c.length
+  · have hi' : i < d.length := hcd ▸ hi
+    simp [List.getD_eq_getElem?_getD, hi, hi']
+  · have hi' : ¬ i < d.length := hcd ▸ hi
+    simp [List.getD_eq_getElem?_getD, hi, hi']
+
+/-- **quadSpline_linear_in_data.**  Linearity of the interpolation in the nodal values: on fixed nodes
+    `x` (knots `t`), if `cu`, `cv`, `cw` pass the collocation certificate for the data `yu`, `yv` and
+    `a·yu + yv`, and the collocation system is uniquely solvable (`hinj`: two coefficient lists with
+    the same collocation values are equal — the Schoenberg–Whitney condition, an assumption here), then
+    the interpolant of the combined data is the combination of the interpolants, at every point. -/
+theorem quadSpline_linear_in_data (t x cu cv cw yu yv : List ℚ) (a : ℚ)
+    (hu : cu.length = x.length) (hv : cv.length = x.length) (hw : cw.length = x.length)
+    (hyu : yu.length = x.length) (hyv : yv.length = x.length)
+    (eu : (quadColloc t x).map (fun row => rowDot row cu) = yu)
+    (ev : (quadColloc t x).map (fun row => rowDot row cv) = yv)
+    (ew : (quadColloc t x).map (fun row => rowDot row cw) = List.zipWith (fun p q => a * p + q) yu yv)
+    (hinj : ∀ c c' : List ℚ, c.length = x.length → c'.length = x.length →
+      x.map (fun xi => quadSplineAt t c xi) = x.map (fun xi => quadSplineAt t c' xi) → c = c') (p : ℚ) :
+    quadSplineAt t cw p = a * quadSplineAt t cu p + quadSplineAt t cv p := by
+  have nu := quadSpline_nodal_reproduction t x cu yu hu eu
+  have nv := quadSpline_nodal_reproduction t x cv yv hv ev
+  have nw := quadSpline_nodal_reproduction t x cw _ hw ew
+  have hcomb : (List.zipWith (fun x y => a * x + y) cu cv).length = x.length := by simp [hu, hv]
+  have : cw = List.zipWith (fun x y => a * x + y) cu cv := by
+    apply hinj cw _ hw hcomb
+    rw [nw, ← nu, ← nv]
+    apply List.ext_getElem
+    · simp
+    · intro i h1 h2
+      simp [quadSplineAt_linear t cu cv (hu.trans hv.symm)]
+  rw [this, quadSplineAt_linear t cu cv (hu.trans hv.symm)]
+
+/-- non-vacuity: the parabola data of the examples below pass the certificate with `c = [0, 0, 4]` -/
+example : (quadColloc (quadKnots [0, 1, 2]) [0, 1, 2]).map (fun row => rowDot row [0, 0, 4]) = [0, 1, 4] := by
+  decide +kernel
 
 /-- `u = x²` on the nodes `0, 1, 2` (one parabola: coefficients `0, 0, 4` on the knots `0,0,0,2,2,2`)
     is reproduced between the nodes -/
